@@ -16,11 +16,17 @@ def cname(hid, k, pub):
     return f"{'' if pub else '_'}H{hid}C{k}"
 
 
-def class_src(hid, k, c, h) -> str:
+PYNAME = {"m1": "m_one", "m2": "m_two"}       # Python names with an inner underscore (they change under naming conversion)
+
+
+def class_src(hid, k, c, h, attrshadow=False) -> str:
     bases = ", ".join(cname(hid, b, h[b - 1]["pub"]) for b in c["bases"])
     L = [f"class {cname(hid, k, c['pub'])}" + (f"({bases})" if bases else "") + ":"]
     for m in sorted(c["ms"]):
-        L += [f"    def {m}(self, from_c{k}: int) -> int:", "        ...", ""]
+        if attrshadow and c["pub"]:
+            L += [f"    {PYNAME[m]}: int = {k}", ""]
+        else:
+            L += [f"    def {PYNAME[m]}(self, from_c{k}: int) -> int:", "        ...", ""]
     if not c["ms"]:
         L += ["    pass", ""]
     return "\n".join(L) + "\n"
@@ -43,7 +49,7 @@ def main(v: Verdict) -> None:
             if sc.get("aliased"):
                 inits.append(f"from .{'inhb' if sc['split'] else 'inha'} import {cname(hid, 1, False)} as H{hid}C1Shown")
             for k, c in enumerate(h, 1):
-                src = class_src(hid, k, c, h)
+                src = class_src(hid, k, c, h, sc.get("attrshadow", False))
                 if sc["split"] and k == 1:
                     b_parts.append(src)
                     imports.append(f"from {pkg}.inhb import {cname(hid, 1, c['pub'])}")
@@ -55,58 +61,69 @@ def main(v: Verdict) -> None:
     # bookkeeping is quadratic in the number of re-exports
     plain = [sc for sc in scs if not sc.get("aliased")]
     al = [sc for sc in scs if sc.get("aliased")]
-    groups = [(plain, PKG)] + [(al[c:c + 300], f"{PKG}al{c // 300}") for c in range(0, len(al), 300)]
-    rs = run_many([{"src": build(g, pkg), "opts": Opts(), "timeout": 1500} for g, pkg in groups])
+    shadow = [sc for sc in plain if sc.get("attrshadow")]
+    plain = [sc for sc in plain if not sc.get("attrshadow")]
+    groups = [(plain, PKG, False)] + [(al[c:c + 300], f"{PKG}al{c // 300}", False) for c in range(0, len(al), 300)] + [(shadow, f"{PKG}sh", False), (shadow, f"{PKG}shnc", True)]
+    groups = [g for g in groups if g[0]]
+    rs = run_many([{"src": build(g, pkg), "opts": Opts(nc=nc), "timeout": 1500} for g, pkg, nc in groups])
     bad_runs = [r for r in rs if r.exit != "ok"]
     if bad_runs:
         r = bad_runs[0]
         v.machinery(f"run failed: {r.exit} {r.exc} {r.frame} {r.msg}  (crashes are C01's business; nothing observable here)")
         return
-    tops = {}
-    for r in rs:
+    SPEC_NAME = {v_: k_ for k_, v_ in PYNAME.items()}
+    obs = []
+    for (group, pkg, nc), r in zip(groups, rs):
         stubs = Stubs(r)
+        tops = {}
         for rel, f in stubs.files.items():
             for d in f.members:
                 tops.setdefault(d.pyname, []).append((f, d))
-    obs = []
-    for sc in scs:
-        hid, h = sc["id"], sc["h"]
-        index = {cname(hid, k, c["pub"]): k for k, c in enumerate(h, 1)}
-        for k, c in enumerate(h, 1):
-            if not c["pub"]:
-                continue
-            found = tops.get(cname(hid, k, True), [])
-            if len(found) != 1 or found[0][1].kind != "class":
-                o = {"missing": True, "k": k, "meths": [], "supers": [], "unimported": []}
-            else:
-                f, d = found[0]
-                meths = []
-                for m in d.members:
-                    if m.kind == "fun" and m.pyname in ("m1", "m2"):
-                        origin = 0
-                        for p in m.params or []:
-                            mo = re.fullmatch(r"from_c(\d+)", p["pyname"])
-                            if mo:
-                                origin = int(mo.group(1)) if int(mo.group(1)) <= len(h) else 0
-                        meths.append({"name": m.pyname, "origin": origin})
-                supers, unimp = [], []
-                imported = {name for _, name, _ in f.imports}
-                declared = {x.pyname for x in f.members}
-                for s in d.supers:
-                    nm = s.get("n", "").split(".")[-1] if s.get("k") == "named" else ""
-                    idx = index.get(nm, 0)
-                    supers.append(idx)
-                    if idx and nm not in imported and nm not in declared:
-                        unimp.append(idx)
-                o = {"missing": False, "k": k, "meths": meths, "supers": supers, "unimported": unimp}
-            obs.append({"id": f"H{hid}C{k}", "sc": {"h": h, "split": sc["split"], "decoy": sc.get("decoy", False), "aliased": sc.get("aliased", False)}, "obs": o})
+        for sc in group:
+            hid, h = sc["id"], sc["h"]
+            index = {cname(hid, k, c["pub"]): k for k, c in enumerate(h, 1)}
+            for k, c in enumerate(h, 1):
+                if not c["pub"]:
+                    continue
+                found = tops.get(cname(hid, k, True), [])
+                if len(found) != 1 or found[0][1].kind != "class":
+                    o = {"missing": True, "k": k, "meths": [], "supers": [], "unimported": []}
+                else:
+                    f, d = found[0]
+                    meths = []
+                    for m in d.members:
+                        if m.pyname not in SPEC_NAME:
+                            continue
+                        if m.kind == "fun":
+                            origin = 0
+                            for p in m.params or []:
+                                mo = re.fullmatch(r"from_c(\d+)", p["pyname"])
+                                if mo:
+                                    origin = int(mo.group(1)) if int(mo.group(1)) <= len(h) else 0
+                            meths.append({"name": SPEC_NAME[m.pyname], "origin": origin})
+                        elif m.kind == "attr":      # a class attribute of that name is the class's own definition
+                            meths.append({"name": SPEC_NAME[m.pyname], "origin": k})
+                    supers, unimp = [], []
+                    imported = {name for _, name, _ in f.imports}
+                    declared = {x.pyname for x in f.members}
+                    for s_ in d.supers:
+                        nm = s_.get("n", "").split(".")[-1] if s_.get("k") == "named" else ""
+                        idx = index.get(nm, 0)
+                        supers.append(idx)
+                        if idx and nm not in imported and nm not in declared:
+                            unimp.append(idx)
+                    o = {"missing": False, "k": k, "meths": meths, "supers": supers, "unimported": unimp}
+                scj = {"h": h, "split": sc["split"], "decoy": sc.get("decoy", False), "aliased": sc.get("aliased", False)}
+                if sc.get("attrshadow"):
+                    scj["attrshadow"] = True
+                obs.append({"id": f"H{hid}C{k}" + (":nc" if nc else ""), "sc": scj, "obs": o})
     bad = judge(v, "C17_Trace", obs)
     by_id = {o["id"]: o for o in obs}
     for b in bad:
         o = by_id.get(b.get("subject"))
         if o:
             hid = int(re.match(r"H(\d+)C", o["id"]).group(1))
-            b["python"] = "".join(class_src(hid, k, c, o["sc"]["h"]) for k, c in enumerate(o["sc"]["h"], 1))
+            b["python"] = "".join(class_src(hid, k, c, o["sc"]["h"], o["sc"].get("attrshadow", False)) for k, c in enumerate(o["sc"]["h"], 1))
             b["split"] = o["sc"]["split"]
     v.add_bad(bad)
     v.samples = [{"hierarchy": o["sc"], "observed": o["obs"]} for o in obs[:: max(1, len(obs) // 3)]][:3]
